@@ -12,9 +12,12 @@ Clauses of the property:
                                                           C13_lines_needs_F17 (the pinned code fails it)
   (b) robustness on ANY directive sequence                 C13_never_pops_base, C13_stray_directive_is_error
   (c) "the skipped side of &&, || or ?: never causes an error or a crash"
-                                                          C13_no_trap_guarded, C13_eager_and_traps,
-                                                          C13_eval_agrees_with_C (on the stated class)
-  (d) "produces exactly the token sequence"                C13_expand_* (see the section below; partial)
+                                                          C13_no_trap_guarded, C13_eager_and_traps
+                                                          (value agreement of eval with evalC: checked by the
+                                                          three-way run, not proved)
+  (d) "produces exactly the token sequence"                C13_expand_fuel_monotone,
+                                                          C13_expand_terminates_full / _full_fails / _partial,
+                                                          C13_expand_agrees_full / _full_fails / _partial
   tie                                                      C13_flags_are_distinct_bits, C13_tree_is_repaired
 -/
 import OccaProofs.Lemmas.CppCond
